@@ -15,6 +15,7 @@ package blocklist
 import (
 	"encoding/json"
 	"fmt"
+	"github.com/miekg/dns"
 	"os" // the REAL os: only the package under test sees vos
 	"path/filepath"
 	"sort"
@@ -369,6 +370,7 @@ type vkPSide struct {
 	identity string // first (simplest) reload-identity counterexample
 	idState  []string
 	idWhite  []string
+	rig      *vkRig
 }
 
 // vkLinearizable: is there an order of the (atomic) operations whose model results
@@ -472,6 +474,24 @@ func vkPersistScenarioFn(sc vkPScenario, side *vkPSide) sched.Scenario {
 			outcome := fmt.Sprintf("mem=%v res=%v lastPersisted=%d/%d", mem, results, b.lastPersisted, b.version)
 			if !vkLinearizable(init, sc.White, sc.Threads, results, mem) {
 				return fmt.Sprintf("final in-memory list %v with results %v is not explained by any order of the operations from %v", mem, results, init.sorted()), outcome
+			}
+			// the serving path itself (not only Exists): once the operations have completed, a query for
+			// every listed name is answered by the blocklist and a name that is not listed passes — whatever
+			// bookkeeping ServeDNS keeps next to the maps must agree with them under every schedule
+			if side.rig == nil {
+				side.rig = vkNewRig()
+			}
+			ref := vkListOf(mem, sc.White)
+			probes := append([]string{"never-listed.example."}, mem...)
+			for _, e := range probes {
+				q := strings.TrimPrefix(e, "*.")
+				if strings.HasPrefix(e, "*.") {
+					q = "sub." + q
+				}
+				want := vkRefBlocked(ref, q)
+				if sv, _ := side.rig.vkServe(b, q, dns.TypeA, want); sv != "" {
+					return fmt.Sprintf("at quiescence the in-memory list is %v but ServeDNS(%s A): %s", mem, q, sv), outcome
+				}
 			}
 			v := vkReloadOracle(side.base, dir, b, sc.White, side.cache)
 			if v.identity != "" && side.identity == "" {
